@@ -37,7 +37,7 @@ def model_bools(model, names):
 
 
 def explore(names, run_fn, domain=(), init=None, max_paths=64, bool_names=(), timeout_ms=20000, stats=None,
-            cond_of=None, axioms_fn=None):
+            cond_of=None, axioms_fn=None, init_from_solver=False):
     """cond_of(path, result) -> z3 formula of the path over INPUT symbols (default: path.condition());
     axioms_fn(list of formulas) -> ground facts about uninterpreted functions occurring in them"""
     """
@@ -46,12 +46,41 @@ def explore(names, run_fn, domain=(), init=None, max_paths=64, bool_names=(), ti
     """
     blocked = []
     seen = set()
-    values = dict(init) if init is not None else {n: Fraction(1) for n in names}
-    for n in bool_names:
-        values.setdefault(n, False)
+    # one incremental solver: the domain once, then one blocking clause per covered path
+    s = z3.Solver()
+    s.set("timeout", timeout_ms)
+    for d in domain:
+        s.add(d)
+    added_axioms = set()
+
+    def add_axioms(formulas):
+        if axioms_fn is None:
+            return
+        for a in axioms_fn(list(formulas)):
+            if a.get_id() not in added_axioms:
+                added_axioms.add(a.get_id())
+                s.add(a)
+    add_axioms(list(domain))
     exhausted = False
     divergences = 0
     results = []
+    if init_from_solver:
+        r = str(s.check())
+        if stats is not None:
+            stats[r] = stats.get(r, 0) + 1
+        if r == "unsat":
+            explore.last_exhausted = True
+            return [], True          # empty domain: nothing to explore
+        if r != "sat":
+            explore.last_exhausted = False
+            return [], False
+        m = s.model()
+        values = model_values(m, names)
+        values.update(model_bools(m, bool_names))
+    else:
+        values = dict(init) if init is not None else {n: Fraction(1) for n in names}
+        for n in bool_names:
+            values.setdefault(n, False)
     while len(results) < max_paths:
         with Path() as p:
             res = run_fn(values)
@@ -69,15 +98,8 @@ def explore(names, run_fn, domain=(), init=None, max_paths=64, bool_names=(), ti
             results.append((p, res, dict(values)))
             pc = p.condition() if cond_of is None else cond_of(p, res)
             blocked.append(z3.Not(pc))
-        s = z3.Solver()
-        s.set("timeout", timeout_ms)
-        for d in domain:
-            s.add(d)
-        for b in blocked:
-            s.add(b)
-        if axioms_fn is not None:
-            for a in axioms_fn(list(blocked) + list(domain)):
-                s.add(a)
+        s.add(blocked[-1])
+        add_axioms([blocked[-1]])
         r = str(s.check())
         if stats is not None:
             stats[r] = stats.get(r, 0) + 1
